@@ -196,6 +196,7 @@ impl<'de, 'a> de::Deserializer<'de> for &'a mut Deserializer<'de> {
         V: de::Visitor<'de>,
     {
         match self.input {
+            Value::Null => visitor.visit_seq(ListAccess::empty()),
             Value::Vector(elements) => visitor.visit_seq(VecAccess::new(elements)),
             Value::Cons(cell) => visitor.visit_seq(ListAccess::new(cell)),
             _ => Err(invalid_value(self.input, "list")),
